@@ -86,6 +86,7 @@ type Switches struct {
 	AbortOnConflict   bool // F-v3-conflict-swallowed: a reconcile ends at its first refused (conflicting) write
 	RbSingleTrailing  bool // F-v3-stuck-after-rollback: one rollback request, of the latest change, nothing appended after it
 	RbOverAppliedOnly bool // F-v3-rollback-marks-unapplied-revision: rollback only when every earlier change was applied
+	RbNotAfterPartial bool // F-v3-rollback-after-partial-apply: no rollback of a change whose apply hand-shake was cut by a crash and not yet recovered
 	RbNotBehindFailed bool // F-v3-rollback-behind-failed-change: no rollback of a change that has a failed or uncommitted change behind it
 }
 
@@ -114,7 +115,7 @@ func genC20(sw Switches) func(rt *rapid.T) C20Case {
 			Preempt: rapid.IntRange(0, 9).Draw(rt, "preempt") < 6,
 			Online:  rapid.IntRange(0, 9).Draw(rt, "online") < 7,
 		}
-		nAppend := rapid.IntRange(1, 4).Draw(rt, "appends")
+		nAppend := rapid.SampledFrom([]int{1, 2, 2, 2, 3, 3, 3, 4, 4, 4}).Draw(rt, "appends")
 		nRollback := rapid.IntRange(0, 3).Draw(rt, "rollbacks")
 		nEnv := rapid.IntRange(0, 4).Draw(rt, "envActions")
 		if sw.RbSingleTrailing && nRollback > 1 {
